@@ -623,7 +623,8 @@ fn main() {
          matrix_to_uri / matrix_to_uri_via / matrix_to_event_uri(_via) / matrix_uri(flag) / matrix_uri_via / matrix_event_uri(_via) \
          with every via list of length 0..=2 over 3 server names and both join/chat flags; events pair the full localpart set with \
          a representative set (localparts of length <= 1) on the other side; localparts of length {}..={l_novia} with via=[] and 3 \
-         representative partners; (b) values reachable only by parsing: custom actions = every string of 0..={l_action} symbols \
+         representative partners; localparts of 80 / 125 / 245 / 252 bytes filled with each symbol (pure and alternating with `a`), \
+         i.e. identifiers up to exactly 255 bytes whose encoded form is up to three times longer; (b) values reachable only by parsing: custom actions = every string of 0..={l_action} symbols \
          over {{a & = % # + space é}}, form-encoded and raw, on 4 ids x 3 via placements; reversed event/room order; \
          (c) texts: `https://matrix.to/#/` + every string of 0..={n_to} symbols over {{/ ? # % ! $ @ : a . 2 5}}, `matrix:` + every \
          string of 0..={n_uri} tokens over {{u r e roomid / ? & = % a : . via= action=}}, every single-edit mutant of 16 valid URIs. \
@@ -663,6 +664,28 @@ fn main() {
             }
         }
     }
+    // long localparts: identifiers at and near the 255-byte limit whose percent-encoded form is up to
+    // three times longer (a length test on the encoded text, a fixed-size buffer or a u8 counter shows
+    // up here); targets are localpart byte lengths that give 255-byte ids with the short / long host
+    let n_short = lps.len();
+    for filler in LP_ALPHABET {
+        for target in [80usize, 125, 245, 252] {
+            for alternate in [false, true] {
+                let mut lp = String::new();
+                let unit = if alternate { format!("a{filler}") } else { filler.to_owned() };
+                while lp.len() + unit.len() <= target {
+                    lp.push_str(&unit);
+                }
+                while lp.len() < target {
+                    lp.push('a');
+                }
+                if !lps.contains(&lp) {
+                    lps.push(lp);
+                }
+            }
+        }
+    }
+    report.set("family_a_long_localparts", json!(lps.len() - n_short));
     let rep = all_strings(&LP_ALPHABET, 1);
     par_shards(&report, lps.len(), |i, t| {
         let lp = &lps[i];
